@@ -17,6 +17,7 @@ import (
 	"math/rand"
 	"os"
 	"path/filepath"
+	"sort"
 	"strconv"
 	"strings"
 	"syscall"
@@ -36,6 +37,7 @@ type dcCase struct {
 	Big      bool  `json:"big"`     // large binary values (long rendering per line: overlap between workers)
 	Chunked  bool  `json:"chunked"` // one hash above the loader's 16 MiB chunk limit
 	InfScore bool  `json:"inf"`     // sorted sets may carry +-inf scores
+	Twice    bool  `json:"twice"`   // the same file is given as input twice (rdb.input = [f, f]): the second output must say what the first says
 	Slow     bool  `json:"slow"`    // input and output are FIFOs: the input arrives in two parts 1.5 s apart, the output is not read for 2.5 s
 	Seed     int64 `json:"seed"`
 }
@@ -318,6 +320,9 @@ func dcRun(in []byte) (interface{}, error) {
 		tr.Emit(tracer.Ev{"e": "dfile", "file": c.Id, "parallel": c.Parallel, "lines": lines, "bytes": len(file), "chunked": c.Chunked, "inf": c.InfScore})
 		// ---- the real command
 		conf.Options.SourceRdbInput = []string{inPath}
+		if c.Twice && !c.Slow {
+			conf.Options.SourceRdbInput = []string{inPath, inPath}
+		}
 		conf.Options.TargetRdbOutput = outBase
 		conf.Options.Parallel = c.Parallel
 		finished := false
@@ -358,7 +363,7 @@ func dcRun(in []byte) (interface{}, error) {
 		}
 		if hung {
 			// the command's goroutines may still hold the output file; judge what is there and stop using this process for further cases
-			tr.Emit(tracer.Ev{"e": "dend", "file": c.Id, "finished": false, "hung": true, "err": errText, "lines": 0, "chunked": c.Chunked, "inf": c.InfScore, "parallel": c.Parallel})
+			tr.Emit(tracer.Ev{"e": "dend", "file": c.Id, "finished": false, "hung": true, "err": errText, "lines": 0, "chunked": c.Chunked, "inf": c.InfScore, "parallel": c.Parallel, "second_ok": true})
 			stats["hung"]++
 			break
 		}
@@ -483,7 +488,22 @@ func dcRun(in []byte) (interface{}, error) {
 		} else {
 			errText += " open output: " + err.Error()
 		}
-		tr.Emit(tracer.Ev{"e": "dend", "file": c.Id, "finished": finished, "hung": false, "err": errText, "lines": nlines, "chunked": c.Chunked, "inf": c.InfScore, "parallel": c.Parallel})
+		secondOK := true
+		if c.Twice && !c.Slow {
+			// the inputs are decoded one after the other by the same command object: nothing of the first may colour the second
+			a, _ := os.ReadFile(outBase + ".0")
+			b, _ := os.ReadFile(outBase + ".1")
+			la, lb := strings.Split(string(a), "\n"), strings.Split(string(b), "\n")
+			sort.Strings(la)
+			sort.Strings(lb)
+			secondOK = len(la) == len(lb)
+			for i := 0; secondOK && i < len(la); i++ {
+				secondOK = la[i] == lb[i]
+			}
+			os.Remove(outBase + ".1")
+		}
+		tr.Emit(tracer.Ev{"e": "dend", "file": c.Id, "finished": finished, "hung": false, "err": errText, "lines": nlines, "chunked": c.Chunked, "inf": c.InfScore, "parallel": c.Parallel,
+			"second_ok": secondOK})
 		os.Remove(inPath)
 		os.Remove(outBase + ".0")
 		stats["files"]++
